@@ -4,14 +4,27 @@ import RisorModel.C07.Model
 Line-protocol front end of the C07 model (requests after the leading `C07` field).
 
   hist <inv> <inv> …      inv  = kind:beh:depth:pend:v:bump:bg:imp:pre:during
-                          kind ∈ run|runcode|call   beh ∈ normal|err|panic|overflow|selfcancel
-                          bg ∈ 0|1   pre, during = `_` (empty) or context ids joined by `.`
-  reply: ok <res> <res> … res  = implOutcome,sp,fp,halt,running,startCount,haltBeforeStart,specOutcome,staleFires,fpAtLeaf,importFails
+                          kind ∈ run|runcode|call, or `runcode@j` (re-supply the code object compiled
+                          for invocation j)   beh ∈ normal|err|panic|overflow|selfcancel
+                          bg ∈ 0|1   imp ∈ 0|1|2|3 (bit 0: import hostmod, bit 1: import fmod), with
+                          the suffix `m` when the ending happens inside fmod's top-level code
+                          pre, during = `_` (empty) or context ids joined by `.`
+  reply: ok <res> <res> … res  = implOutcome,sp,fp,halt,running,startCount,haltBeforeStart,specOutcome,staleFires,fpAtLeaf,importFails,leafReached,moduleCodeRan,len(vm.modules)
 -/
 namespace Risor.C07
 
-def parseKind : String → Option Kind
-  | "run" => some .run | "runcode" => some .runCode | "call" => some .call | _ => none
+def parseKind : String → Option (Kind × Option Nat)
+  | "run" => some (.run, none) | "runcode" => some (.runCode, none) | "call" => some (.call, none)
+  | s => match s.splitOn "@" with
+    | ["runcode", j] => j.toNat?.map (fun j => (.runCode, some j))
+    | _ => none
+
+/-- imp field: (import hostmod, import fmod, ending inside fmod's top-level code) -/
+def parseImp : String → Option (Bool × Bool × Bool)
+  | "0" => some (false, false, false) | "1" => some (true, false, false)
+  | "2" => some (false, true, false) | "3" => some (true, true, false)
+  | "2m" => some (false, true, true) | "3m" => some (true, true, true)
+  | _ => none
 
 def parseBeh : String → Option Beh
   | "normal" => some .normal | "err" => some .err | "panic" => some .panic
@@ -23,7 +36,8 @@ def parseIds (s : String) : Option (List Nat) :=
 def parseInv (s : String) : Option Inv :=
   match s.splitOn ":" with
   | [k, b, d, p, v, bu, bg, im, pre, du] => do
-    let kind ← parseKind k
+    let (kind, same) ← parseKind k
+    let (imp, fimp, mfail) ← parseImp im
     let beh ← parseBeh b
     let depth ← d.toNat?
     let pend ← p.toNat?
@@ -31,7 +45,7 @@ def parseInv (s : String) : Option Inv :=
     let bump ← bu.toNat?
     let pre ← parseIds pre
     let during ← parseIds du
-    pure { kind, beh, depth, pend, v, bump, bg := bg == "1", imp := im == "1", pre, during }
+    pure { kind, beh, depth, pend, v, bump, bg := bg == "1", imp, pre, during, fimp, mfail, same }
   | _ => none
 
 def showOutcome : Outcome → String
@@ -54,7 +68,8 @@ def resFrom (s : St) (k : Nat) : List Inv → List String
     let line := String.intercalate ","
       [showOutcome r.2, toString r.1.sp, toString r.1.fp, b01 r.1.halt, b01 r.1.running,
        toString r.1.startCount, b01 pre.halt, showOutcome (specOutcome inv s.acc),
-       b01 (staleFires s k inv), toString (leafFp s k inv), b01 (importFails s k inv)]
+       b01 (staleFires s k inv), toString (leafFp s k inv), b01 (importFails s k inv),
+       b01 (leafReached s k inv), b01 (modRan s k inv), toString (modCount r.1)]
     line :: resFrom r.1 (k + 1) rest
 
 def handle : List String → String
